@@ -356,6 +356,16 @@ func (vfs *MemFS) Link(oldname, newname string) error {
 		return &os.LinkError{Op: op, Old: oldname, New: newname, Err: err}
 	}
 
+	if nParent.children[pi.Part()] != nil {
+		// newname was created by someone else since it was looked up.
+		err := vfs.err.FileExists
+		if vfs.OSType() == avfs.OsWindows {
+			err = avfs.ErrWinAlreadyExists
+		}
+
+		return &os.LinkError{Op: op, Old: oldname, New: newname, Err: err}
+	}
+
 	c.mu.Lock()
 	nParent.addChild(pi.Part(), c)
 
@@ -951,6 +961,11 @@ func (vfs *MemFS) Symlink(oldname, newname string) error {
 
 	if !parent.checkPermission(avfs.OpenWrite, vfs.User()) {
 		return &os.LinkError{Op: op, Old: oldname, New: newname, Err: vfs.err.PermDenied}
+	}
+
+	if parent.children[pi.Part()] != nil {
+		// newname was created by someone else since it was looked up.
+		return &os.LinkError{Op: op, Old: oldname, New: newname, Err: vfs.err.FileExists}
 	}
 
 	link := vfs.Clean(oldname)
